@@ -16,9 +16,19 @@ import (
 type vRoute struct {
 	segs []string
 	verb string
+	// spelling of the same path: 0 = normal form, 1 = trailing slash, 2 = doubled slash before the last segment
+	spelling int
 }
 
-func (r vRoute) path() string { return "/" + strings.Join(r.segs, "/") }
+func (r vRoute) path() string {
+	switch {
+	case r.spelling == 1 && len(r.segs) > 0:
+		return "/" + strings.Join(r.segs, "/") + "/"
+	case r.spelling == 2 && len(r.segs) > 0:
+		return "/" + strings.Join(r.segs[:len(r.segs)-1], "/") + "//" + r.segs[len(r.segs)-1]
+	}
+	return "/" + strings.Join(r.segs, "/")
+}
 
 func vIsParam(s string) bool { return strings.HasPrefix(s, "{") && strings.HasSuffix(s, "}") }
 
@@ -39,12 +49,20 @@ func vUniverse() []vRoute {
 	alpha := []string{"a", "b", "{x}", "{y}"}
 	var out []vRoute
 	for _, verb := range []string{"GET", "POST"} {
-		out = append(out, vRoute{nil, verb})
+		out = append(out, vRoute{nil, verb, 0})
 		for _, s1 := range alpha {
-			out = append(out, vRoute{[]string{s1}, verb})
+			out = append(out, vRoute{[]string{s1}, verb, 0})
 			for _, s2 := range alpha {
-				out = append(out, vRoute{[]string{s1, s2}, verb})
+				out = append(out, vRoute{[]string{s1, s2}, verb, 0})
 			}
+		}
+	}
+	// the same paths written with a trailing or a doubled slash (GET only, to keep the universe small): the overlap
+	// relation is about segments, not about spelling
+	for _, s1 := range alpha {
+		out = append(out, vRoute{[]string{s1}, "GET", 1})
+		for _, s2 := range []string{"a", "{x}"} {
+			out = append(out, vRoute{[]string{s1, s2}, "GET", 1}, vRoute{[]string{s1, s2}, "GET", 2})
 		}
 	}
 	return out
